@@ -20,6 +20,7 @@ import math
 from mc import alpha
 from mc import exactgeom as G
 from mc.env import guard
+from mc.state import seq
 from tracklib.core.obs import Obs
 from tracklib.core.obs_coords import ENUCoords
 from tracklib.core.track import Track
@@ -48,6 +49,7 @@ ASSUMPTIONS = ["coordinates are dyadic rationals of magnitude < 200 (lattice poi
 N_VARIANTS = 4
 
 OBLIGATIONS = {
+    "point_form_after_a_refused_mapping": "mapOnTrack(point, track) judged right after a whole-track mapping that was refused (a query fix without coordinates, a degenerate reference) in the same process",
     "reference_track_with_a_past": "mapOnTrack onto a track that had been projected on elsewhere and then moved in place",
     "decimal_coordinates": "the same segments, polylines and queries with decimal (not exactly representable) coordinates",
     "long_polyline": "a polyline of 17 or more vertices (serpentine, zigzag, hairpin, fan) was queried on the whole lattice around it",
@@ -61,6 +63,7 @@ OBLIGATIONS = {
     "zero_length_segment": "a polyline with a zero-length segment mixed in",
     "tie_between_segments": "two proper segments attain the minimum distance at different points, or are not adjacent",
     "track_form": "mapOnTrack called with a track of query points",
+    "level_flight": "mapOnTrack(track of queries, track) with the polyline and the queries all at the same non-zero height",
     "point_form": "mapOnTrack called with one coordinate",
 }
 
@@ -250,7 +253,7 @@ def check_segment(variant, a, b, ql, ctx):
     if st != "ok":
         _raised("proj_segment", O, st, r, ctx, case)
         return
-    vals = [G.num(v) for v in r] if isinstance(r, (tuple, list)) and len(r) == 3 else None
+    vals = [G.num(v) for v in seq(r)] if seq(r) is not None and len(r) == 3 else None
     if vals is None or None in vals:
         ctx.violation("proj_segment/malformed-result", case, repr(r)[:200])
         return
@@ -270,9 +273,13 @@ def _index(v, nseg):
     return i
 
 
-def _mk_track(variant, pts):
+ALTITUDE = 256.0      # the "level-flight" family: polyline and queries all at this height, so that the planimetric distance is
+                      # also the distance in space - a 'dist' that mixes the height in is wrong under either reading
+
+
+def _mk_track(variant, pts, z=0.0):
     t0 = alpha.t0(_base(variant))
-    return Track([Obs(ENUCoords(x, y, 0.0), alpha.obstime(t0 + k)) for k, (x, y) in enumerate(pts)])
+    return Track([Obs(ENUCoords(x, y, z), alpha.obstime(t0 + k)) for k, (x, y) in enumerate(pts)])
 
 
 def _moved_track(variant, pts):
@@ -297,7 +304,7 @@ def check_polyline(variant, ptsl, ql, ctx, O=None):
     if st != "ok":
         _raised(site, O, st, r, ctx, case)
         return
-    ok = isinstance(r, (tuple, list)) and len(r) == 4
+    ok = seq(r) is not None and len(r) == 4
     vals = [G.num(v) for v in r[:3]] if ok else [None]
     i = _index(r[3], len(pts) - 1) if ok else None
     if None in vals or i is None:
@@ -314,7 +321,16 @@ def check_map_point(variant, ptsl, ql, ctx, O=None, track=None, past=None):
     O = O or oracle(pts, q)
     ctx.case(_cover(O, q, ctx, "mapOnTrack(coord)"))
     ctx.oblige("point_form")
-    if past:
+    if past == "after-a-refused-mapping":
+        # a whole-track mapping that is refused first (a query fix without coordinates; a reference without a proper segment),
+        # on a reference that stands elsewhere - then the ordinary single-point call on THIS polyline
+        case["past"] = past
+        ctx.oblige("point_form_after_a_refused_mapping")
+        far = _mk_track(variant, [(x + 1024.0, y + 512.0) for (x, y) in pts])
+        guard(mapOnTrack, _mk_track(variant, [(pts[0][0], pts[0][1]), (float("nan"), float("nan")), (pts[-1][0], pts[-1][1])]), far)
+        guard(mapOnTrack, _mk_track(variant, [(pts[0][0], pts[0][1])]), _mk_track(variant, [(pts[0][0] + 64.0, pts[0][1])] * 2))
+        track = None
+    elif past:
         case["past"] = past
         ctx.oblige("reference_track_with_a_past")
         track = track or _moved_track(variant, pts)
@@ -336,7 +352,7 @@ def check_map_point(variant, ptsl, ql, ctx, O=None, track=None, past=None):
     _judge(site, site + "/vertical-segment/end-point-taken-instead-of-foot", O, q, (vals[0], vals[1], vals[2], i), ctx, case)
 
 
-def check_map_track(variant, ptsl, qls, ctx, Os=None, track=None):
+def check_map_track(variant, ptsl, qls, ctx, Os=None, track=None, alt=0.0):
     """mapOnTrack(track of queries, track) -> Track of projected points with features 'dist' and 'edge'."""
     case = {"op": "map_track", "variant": variant, "pts": [list(p) for p in ptsl], "qs": [list(q) for q in qls]}
     pts = [_P(variant, p) for p in ptsl]
@@ -345,8 +361,12 @@ def check_map_track(variant, ptsl, qls, ctx, Os=None, track=None):
     for O, q in zip(Os, qs):
         ctx.case(_cover(O, q, ctx, "mapOnTrack(track)"))
     ctx.oblige("track_form")
+    if alt:
+        case["alt"] = alt
+        ctx.oblige("level_flight")
+        track = _mk_track(variant, pts, alt)
     track = track or _mk_track(variant, pts)
-    qtrack = _mk_track(variant, qs)
+    qtrack = _mk_track(variant, qs, alt)
 
     def call():
         out = mapOnTrack(qtrack, track)
@@ -384,7 +404,7 @@ def replay(case, ctx):
     elif op == "map_point":
         check_map_point(v, [tuple(p) for p in case["pts"]], tuple(case["q"]), ctx, past=case.get("past"))
     elif op == "map_track":
-        check_map_track(v, [tuple(p) for p in case["pts"]], [tuple(q) for q in case["qs"]], ctx)
+        check_map_track(v, [tuple(p) for p in case["pts"]], [tuple(q) for q in case["qs"]], ctx, alt=case.get("alt", 0.0))
 
 
 def probe():
@@ -533,7 +553,10 @@ def _run_polylines(shard, ctx):
                     check_map_point(v, ptsl, q, ctx, O, track)
                     if moved is not None:
                         check_map_point(v, ptsl, q, ctx, O, moved, past="moved")
+                        check_map_point(v, ptsl, q, ctx, O, None, past="after-a-refused-mapping")
                 check_map_track(v, ptsl, row, ctx, Os, track)
+                if n <= 3:
+                    check_map_track(v, ptsl, row, ctx, Os, None, alt=ALTITUDE)
             n_done += 1
             if n_done == 5:
                 ctx.sample({"forms": ["proj_polyligne", "mapOnTrack(coord)", "mapOnTrack(track)"], "polyline": [list(p) for p in ptsl],
